@@ -9,9 +9,10 @@ namespace FileD.FileRestart
 open FileD FileD.SpecC06 FileD.SpecC03
 
 structure SeqInv (st0 : Stream) (s : State) : Prop where
-  infl : ∀ e ∈ s.inflight, e.seq ≤ s.seqs e.ino st0
-  last : ∀ i j, s.jobs i = some j → j.lastSeq = s.seqs i st0
-  nojob : ∀ i, s.jobs i = none → s.seqs i st0 = 0
+  /-- every in-flight event of a source is not younger than the last event its job read -/
+  infl : ∀ e ∈ s.inflight, ∀ j, s.jobs e.ino = some j → e.seq ≤ j.lastSeq
+  le : ∀ i j, s.jobs i = some j → j.lastSeq ≤ s.seqs i st0
+  job : ∀ e ∈ s.inflight, (s.jobs e.ino).isSome
 
 theorem seqInv_init (st0 : Stream) : SeqInv st0 init := by
   refine ⟨?_, ?_, ?_⟩ <;> simp [init]
@@ -27,22 +28,27 @@ theorem seqInv_inOne {cfg : Cfg} {st0 : Stream} (hst : ∀ d, cfg.streamOf d = s
       · dsimp only
         simp only [hst]
         refine ⟨?_, ?_, ?_⟩
-        · intro e he
+        · intro e he jk hk
           rcases List.mem_append.1 he with he | he
-          · have := h.infl e he
-            by_cases hei : e.ino = i
-            · simp [hei]; rw [hei] at this; omega
-            · simp [hei]; exact this
-          · simp at he; subst he; simp
+          · by_cases hei : e.ino = i
+            · rw [hei] at hk; simp only [upd_same] at hk; cases hk
+              have h1 := h.infl e he j (by rw [hei]; exact hj)
+              have h2 := h.le i j hj
+              simp; omega
+            · simp only [upd_other _ _ hei] at hk; exact h.infl e he jk hk
+          · simp at he; subst he
+            simp only [upd_same] at hk; cases hk; simp
         · intro k jk hk
           by_cases hki : k = i
           · subst hki; simp only [upd_same] at hk; cases hk; simp
-          · simp only [upd_other _ _ hki] at hk; simp [hki]; exact h.last k jk hk
-        · intro k hk
-          by_cases hki : k = i
-          · subst hki; simp at hk
-          · simp only [upd_other _ _ hki] at hk; simp [hki]; exact h.nojob k hk
-      · exact ⟨h.infl, h.last, h.nojob⟩
+          · simp only [upd_other _ _ hki] at hk; simp [hki]; exact h.le k jk hk
+        · intro e he
+          rcases List.mem_append.1 he with he | he
+          · by_cases hei : e.ino = i
+            · simp [hei]
+            · simp only [upd_other _ _ hei]; exact h.job e he
+          · simp at he; subst he; simp
+      · exact ⟨h.infl, h.le, h.job⟩
     · exact h
 
 theorem seqInv_fold {cfg : Cfg} {st0 : Stream} (hst : ∀ d, cfg.streamOf d = st0) {i : Nat}
@@ -56,32 +62,41 @@ theorem seqInv_fold {cfg : Cfg} {st0 : Stream} (hst : ∀ d, cfg.streamOf d = st
 theorem seqInv_upd {st0 : Stream} {s : State} {i : Nat} {j jn : JobSt} (hj : s.jobs i = some j)
     (hl : jn.lastSeq = j.lastSeq) (h : SeqInv st0 s) :
     SeqInv st0 { s with jobs := upd s.jobs i (some jn) } := by
-  refine ⟨h.infl, ?_, ?_⟩
+  refine ⟨?_, ?_, ?_⟩
+  · intro e he jk hk
+    by_cases hei : e.ino = i
+    · rw [hei] at hk; simp only [upd_same] at hk; cases hk
+      rw [hl]; exact h.infl e he j (by rw [hei]; exact hj)
+    · simp only [upd_other _ _ hei] at hk; exact h.infl e he jk hk
   · intro k jk hk
     by_cases hki : k = i
-    · subst hki; simp only [upd_same] at hk; cases hk; rw [hl]; exact h.last k j hj
-    · simp only [upd_other _ _ hki] at hk; exact h.last k jk hk
-  · intro k hk
-    by_cases hki : k = i
-    · subst hki; simp at hk
-    · simp only [upd_other _ _ hki] at hk; exact h.nojob k hk
+    · subst hki; simp only [upd_same] at hk; cases hk; rw [hl]; exact h.le k j hj
+    · simp only [upd_other _ _ hki] at hk; exact h.le k jk hk
+  · intro e he
+    by_cases hei : e.ino = i
+    · simp [hei]
+    · simp only [upd_other _ _ hei]; exact h.job e he
 
 theorem seqInv_newJob {st0 : Stream} {s : State} {i : Nat} {jn : JobSt} (hj : s.jobs i = none)
     (hl : jn.lastSeq = 0) (h : SeqInv st0 s) :
     SeqInv st0 { s with jobs := upd s.jobs i (some jn) } := by
-  refine ⟨h.infl, ?_, ?_⟩
+  have hne : ∀ e ∈ s.inflight, e.ino ≠ i := by
+    intro e he hei
+    have := h.job e he
+    rw [hei, hj] at this; cases this
+  refine ⟨?_, ?_, ?_⟩
+  · intro e he jk hk
+    simp only [upd_other _ _ (hne e he)] at hk; exact h.infl e he jk hk
   · intro k jk hk
     by_cases hki : k = i
-    · subst hki; simp only [upd_same] at hk; cases hk; rw [hl, h.nojob k hj]
-    · simp only [upd_other _ _ hki] at hk; exact h.last k jk hk
-  · intro k hk
-    by_cases hki : k = i
-    · subst hki; simp at hk
-    · simp only [upd_other _ _ hki] at hk; exact h.nojob k hk
+    · subst hki; simp only [upd_same] at hk; cases hk; rw [hl]; exact Nat.zero_le _
+    · simp only [upd_other _ _ hki] at hk; exact h.le k jk hk
+  · intro e he
+    simp only [upd_other _ _ (hne e he)]; exact h.job e he
 
 theorem seqInv_drop {st0 : Stream} {s : State} (e : Ev) (h : SeqInv st0 s) :
     SeqInv st0 { s with inflight := s.inflight.filter (fun x => x ≠ e) } :=
-  ⟨fun x hx => h.infl x (mem_filter_ne hx).1, h.last, h.nojob⟩
+  ⟨fun x hx => h.infl x (mem_filter_ne hx).1, h.le, fun x hx => h.job x (mem_filter_ne hx).1⟩
 
 theorem seqInv_step {cfg : Cfg} {st0 : Stream} (hst : ∀ d, cfg.streamOf d = st0) {s s' : State} {op : Op}
     (h : SeqInv st0 s) (hs : stepS? cfg s op = some s') : SeqInv st0 s' := by
@@ -115,7 +130,7 @@ theorem seqInv_step {cfg : Cfg} {st0 : Stream} (hst : ∀ d, cfg.streamOf d = st
         · split
           · exact seqInv_newJob hj rfl h
           · split
-            · exact ⟨h.infl, h.last, h.nojob⟩
+            · exact ⟨h.infl, h.le, h.job⟩
             · exact seqInv_newJob hj rfl h
         · exact seqInv_newJob hj rfl h
       · cases hs
@@ -132,10 +147,10 @@ theorem seqInv_step {cfg : Cfg} {st0 : Stream} (hst : ∀ d, cfg.streamOf d = st
         · exact seqInv_drop e h
         · split
           · split
-            · exact ⟨h.infl, h.last, h.nojob⟩
+            · exact ⟨h.infl, h.le, h.job⟩
             · exact seqInv_upd (s := { s with inflight := s.inflight.filter (fun x => x ≠ e) }) hj rfl (seqInv_drop e h)
           · split
-            · exact ⟨h.infl, h.last, h.nojob⟩
+            · exact ⟨h.infl, h.le, h.job⟩
             · exact seqInv_upd (s := { s with inflight := s.inflight.filter (fun x => x ≠ e) }) hj rfl (seqInv_drop e h)
     · cases hs
   | crash =>
@@ -143,29 +158,48 @@ theorem seqInv_step {cfg : Cfg} {st0 : Stream} (hst : ∀ d, cfg.streamOf d = st
     split at hs
     · cases hs; refine ⟨?_, ?_, ?_⟩ <;> simp
     · cases hs
-  | create i nm => simp only [stepS?, step?] at hs; split at hs <;> cases hs; exact ⟨h.infl, h.last, h.nojob⟩
+  | create i nm => simp only [stepS?, step?] at hs; split at hs <;> cases hs; exact ⟨h.infl, h.le, h.job⟩
   | append i b =>
     simp only [stepS?, step?] at hs
     split at hs
-    · split at hs <;> cases hs; exact ⟨h.infl, h.last, h.nojob⟩
+    · split at hs <;> cases hs; exact ⟨h.infl, h.le, h.job⟩
     · cases hs
-  | appendPartial i b => simp only [stepS?, step?] at hs; split at hs <;> cases hs; exact ⟨h.infl, h.last, h.nojob⟩
-  | renameRotate i nm k => simp only [stepS?, step?] at hs; split at hs <;> cases hs; exact ⟨h.infl, h.last, h.nojob⟩
-  | truncate i => simp only [stepS?, step?] at hs; split at hs <;> cases hs; exact ⟨h.infl, h.last, h.nojob⟩
-  | scanDone => simp only [stepS?, step?] at hs; split at hs <;> cases hs; exact ⟨h.infl, h.last, h.nojob⟩
-  | deliver e => simp only [stepS?, step?] at hs; split at hs <;> cases hs; exact ⟨h.infl, h.last, h.nojob⟩
-  | ack e => simp only [stepS?, step?] at hs; split at hs <;> cases hs; exact ⟨h.infl, h.last, h.nojob⟩
+  | appendPartial i b => simp only [stepS?, step?] at hs; split at hs <;> cases hs; exact ⟨h.infl, h.le, h.job⟩
+  | renameRotate i nm k => simp only [stepS?, step?] at hs; split at hs <;> cases hs; exact ⟨h.infl, h.le, h.job⟩
+  | truncate i => simp only [stepS?, step?] at hs; split at hs <;> cases hs; exact ⟨h.infl, h.le, h.job⟩
+  | scanDone => simp only [stepS?, step?] at hs; split at hs <;> cases hs; exact ⟨h.infl, h.le, h.job⟩
+  | deliver e => simp only [stepS?, step?] at hs; split at hs <;> cases hs; exact ⟨h.infl, h.le, h.job⟩
+  | ack e => simp only [stepS?, step?] at hs; split at hs <;> cases hs; exact ⟨h.infl, h.le, h.job⟩
   | save i =>
     simp only [stepS?, step?] at hs
     split at hs
-    · split at hs <;> cases hs; exact ⟨h.infl, h.last, h.nojob⟩
+    · split at hs <;> cases hs; exact ⟨h.infl, h.le, h.job⟩
     · cases hs
   | saveAbsent i =>
     simp only [stepS?, step?] at hs
     split at hs
-    · split at hs <;> cases hs; exact ⟨h.infl, h.last, h.nojob⟩
+    · split at hs <;> cases hs; exact ⟨h.infl, h.le, h.job⟩
     · cases hs
-  | restart => simp only [stepS?, step?] at hs; split at hs <;> cases hs; exact ⟨h.infl, h.last, h.nojob⟩
+  | restart => simp only [stepS?, step?] at hs; split at hs <;> cases hs; exact ⟨h.infl, h.le, h.job⟩
+  | forget i =>
+    simp only [stepS?, step?] at hs
+    split at hs
+    · split at hs
+      · split at hs
+        · rename_i hc
+          cases hs
+          refine ⟨?_, ?_, ?_⟩
+          · intro e he jk hk
+            simp only [upd_other _ _ (hc.2 e he)] at hk; exact h.infl e he jk hk
+          · intro k jk hk
+            by_cases hki : k = i
+            · subst hki; simp at hk
+            · simp only [upd_other _ _ hki] at hk; exact h.le k jk hk
+          · intro e he
+            simp only [upd_other _ _ (hc.2 e he)]; exact h.job e he
+        · cases hs
+      · cases hs
+    · cases hs
 
 theorem seqInv_run {cfg : Cfg} {st0 : Stream} (hst : ∀ d, cfg.streamOf d = st0) (ops : List Op) {s s' : State}
     (hk : SkipInv s) (h : SeqInv st0 s) (hr : TS.run (step? cfg) s ops = some s') : SeqInv st0 s' ∧ SkipInv s' := by
